@@ -1115,7 +1115,7 @@ class P(Prop):
             depth = rng.choice([2, 4, 8, 14, 25])
             out.append({"kind": "rich", "n": n, "pool": ["a", "b", "c"], "ops": self.gen_history(rng, n, depth, ["a", "b", "c"], True)})
         # tracks that receive their table from another track: copy(), extract, slice, +
-        for _ in range(900 if q else 5000):
+        for _ in range(1400 if q else 8000):
             out.append(self.gen_carry(rng))
         # a list initialiser shorter than the track in the middle of a history: refused (IndexError) before anything is
         # written when the name is new (fix 2976f2b), a partial overwrite of an existing feature otherwise
@@ -1131,20 +1131,57 @@ class P(Prop):
             out.append({"kind": "empty", "n": 0, "ops": self.gen_history(rng, 0, rng.choice([1, 3, 6]), None, rng.random() < 0.3)})
         return out
 
+    # how a track receives its observations / its table from another one (the "carry" stream):
+    #   copy / extract / slice / plus     Track.copy(), extract(i, j), t[i:j], t + t2
+    #   span                              t.extractSpanTime(...): the observations are COPIES (Obs.copy()), the table is transmitted
+    #   loop                              t.loop(add=True): the track itself, closed into a ring with a copy of its first observation
+    #   addcopy                           t.addObs(o.copy()) / t.insertObs(o.copy(), pos) with o an observation of t: the same idiom by hand
+    SAME_OBJECT = ("loop", "addcopy")     # the derived track is the source track itself, one observation longer
+    INDEPENDENT = ("copy", "span")        # every observation of the derived track is a copy: the two tracks are independent afterwards
+
+    @staticmethod
+    def carry_selection(c, n):
+        """indices of the source's observations that make the derived track, in order (the second operand of + comes after them)"""
+        if c[0] in ("copy", "plus"):
+            return list(range(n))
+        if c[0] == "extract":
+            return list(range(c[1], c[2] + 1))
+        if c[0] == "slice":
+            return list(range(c[1], c[2]))
+        if c[0] == "span":
+            return list(range(min(c[1], c[2]), max(c[1], c[2]) + 1))
+        if c[0] == "loop":
+            return list(range(n)) + [0]
+        if c[0] == "addcopy":
+            sel = list(range(n))
+            sel.insert(n if c[2] is None else c[2], c[1])
+            return sel
+        raise ValueError(c)
+
     def gen_carry(self, rng):
         n = rng.choice([2, 3, 3, 4, 5])
         pool = ["a", "b", "c"] if rng.random() < 0.7 else self.rand_pool(rng)
         rich = rng.random() < 0.3          # one alphabet for the whole case: numpy-valued operators and raising arithmetic stay apart
-        pre = self.gen_history(rng, n, rng.choice([1, 2, 3, 5]), pool, rich)
+        pre = self.gen_history(rng, n, rng.choice([0, 1, 2, 3, 5]), pool, rich)
         r = rng.random()
-        if r < 0.25:
+        if r < 0.18:
             carry = ["copy"]
-        elif r < 0.5:
+        elif r < 0.36:
             i = rng.randrange(0, n)
             carry = ["extract", i, rng.randrange(i, n)]
-        elif r < 0.7:
+        elif r < 0.50:
             i = rng.randrange(0, n)
             carry = ["slice", i, rng.randrange(i + 1, n + 1)]
+        elif r < 0.62:
+            # the piece is made of copies of the observations; the bounds in either order, or given as a track
+            i, j = rng.randrange(0, n), rng.randrange(0, n)
+            carry = ["span", i, j, "trk" if (i <= j and rng.random() < 0.25) else "ts"]
+        elif r < 0.70:
+            carry = ["loop"]
+        elif r < 0.80:
+            how = rng.choice("ogfl")       # t[i], t.getObs(i), t.getFirstObs(), t.getLastObs()
+            i = 0 if how == "f" else n - 1 if how == "l" else rng.randrange(0, n)
+            carry = ["addcopy", i, None if rng.random() < 0.6 else rng.randrange(0, n + 1), how]
         else:
             # t + t2 where t2 went through the same calls (same feature list) or, rarely, through others
             m = rng.choice([1, 2, 3])
@@ -1157,13 +1194,18 @@ class P(Prop):
                 carry = ["plus", m, [resize(op) for op in pre], "same"]
             else:
                 carry = ["plus", m, self.gen_history(rng, m, rng.choice([0, 1, 2]), pool, rich), "other"]
-        dn = {"copy": n, "extract": carry[2] - carry[1] + 1 if carry[0] == "extract" else 0,
-              "slice": carry[2] - carry[1] if carry[0] == "slice" else 0, "plus": n + (carry[1] if carry[0] == "plus" else 0)}[carry[0]]
+        dn = len(self.carry_selection(carry, n)) + (carry[1] if carry[0] == "plus" else 0)
         ops = self.gen_history(rng, dn, rng.choice([1, 2, 4, 8]), pool, rich)
-        return {"kind": "carry", "n": n, "pool": pool, "pre": pre, "carry": carry, "ops": ops}
+        case = {"kind": "carry", "n": n, "pool": pool, "pre": pre, "carry": carry, "ops": ops}
+        if carry[0] in self.INDEPENDENT and rng.random() < 0.6:
+            # the source stays in use next to the derived track: calls on it afterwards
+            case["post"] = self.gen_history(rng, n, rng.choice([1, 2, 4]), pool, rich)
+        return case
 
     def describe(self, case):
         t = {"kind": case["kind"], "n": case["n"], "depth": len(case["ops"])}
+        if case["kind"] == "carry":
+            t["carry"] = case["carry"][0] + ("+post" if case.get("post") else "")
         if case["kind"] == "rand":
             for op in case["ops"][:1]:
                 t["first_op"] = op[0]
@@ -1389,6 +1431,20 @@ class P(Prop):
             return t.extract(c[1], c[2])
         if c[0] == "slice":
             return t[c[1]:c[2]]
+        if c[0] == "span":
+            if c[3] == "trk":
+                return t.extractSpanTime(t[c[1]:c[2] + 1])
+            return t.extractSpanTime(t[c[1]].timestamp, t[c[2]].timestamp)
+        if c[0] == "loop":
+            t.loop(add=True)
+            return t
+        if c[0] == "addcopy":
+            o = {"o": lambda: t[c[1]], "g": lambda: t.getObs(c[1]), "f": t.getFirstObs, "l": t.getLastObs}[c[3]]()
+            if c[2] is None:
+                t.addObs(o.copy())
+            else:
+                t.insertObs(o.copy(), c[2])
+            return t
         t2 = self.Track([], 1)
         for i in range(c[1]):
             t2.addObs(self.Obs(self.ENU(50.0 + i, 60.0 + 2 * i, 70.0 + 3 * i), self.ObsTime.readUnixTime(2000 + i)))
@@ -1406,19 +1462,26 @@ class P(Prop):
         if case["kind"] == "carry":
             pre = self.run_ops(t, case["pre"])
             self._t2 = None
+            src_pre = self.observe(t)          # the source as it is when the derivation is made
             try:
                 d = self.derive(case, t)
             except BaseException as e:
                 if isinstance(e, KeyboardInterrupt):
                     raise
                 return {"pre": pre, "carry_err": self.err_of(e), "steps": []}
+            same = d is t
             src0 = self.observe(t)
             other0 = self.observe(self._t2) if self._t2 is not None else None
             first = self.observe(d)
             steps = self.run_ops(d, case["ops"])
-            res = {"pre": pre, "first": first, "steps": steps, "src_before": src0, "src_after": self.observe(t),
+            res = {"pre": pre, "src_pre": src_pre, "first": first, "steps": steps, "src_before": src0, "src_after": self.observe(t),
                    "other_before": other0, "other_after": self.observe(self._t2) if self._t2 is not None else None,
-                   "final": self.final_reads(d)}
+                   "final": self.final_reads(d), "same_object": same}
+            if case.get("post"):
+                # the source is used again while the derived track is alive
+                res["derived_before_post"] = self.observe(d)
+                res["post"] = self.run_ops(t, case["post"])
+                res["derived_after_post"] = self.observe(d)
             self._t2 = None
             if len(self._impl_cache) > 2000:
                 self._impl_cache.clear()
@@ -1452,7 +1515,7 @@ class P(Prop):
                 res = self.impl(case)
             self._impl_cache[key] = res
         out = {}
-        steps = res["steps"] if which == "ops" else res.get("pre", [])
+        steps = res.get({"ops": "steps"}.get(which, which)) or []
         for k, (op, st) in enumerate(zip(case[which], steps)):
             if op[0] in self.OPAQUE:
                 r = st["ret"]
@@ -1555,14 +1618,16 @@ class P(Prop):
             if case["pre"]:
                 b = self.body(case, "pre")
                 out += ["C01.run %s %s" % (head, b), "C01.arun %s %s" % (head, b)]
-            if "first" in res and case["ops"] and res["first"]["X"]:
-                names = self.carried_table(res["first"])
-                if names is not None:
-                    f = res["first"]
-                    h2 = " ".join(tokl(f[c]) for c in "XYZT")
-                    tbl = "%s %s" % (enc_list(names), ";".join(tokl(f["cols"][nm]) for nm in names) if names else "_")
-                    b = self.body(case, "ops")
-                    out += ["C01.runi %s %s %s" % (h2, tbl, b), "C01.aruni %s %s %s" % (h2, tbl, b)]
+            # the model runs a history from the table the implementation shows when the history starts
+            for which, start in (("ops", "first"), ("post", "src_after")):
+                f = res.get(start)
+                if f is not None and case.get(which) and f["X"]:
+                    names = self.carried_table(f)
+                    if names is not None:
+                        h2 = " ".join(tokl(f[c]) for c in "XYZT")
+                        tbl = "%s %s" % (enc_list(names), ";".join(tokl(f["cols"][nm]) for nm in names) if names else "_")
+                        b = self.body(case, which)
+                        out += ["C01.runi %s %s %s" % (h2, tbl, b), "C01.aruni %s %s %s" % (h2, tbl, b)]
             return out
         if not case["ops"]:
             return []
@@ -1600,13 +1665,18 @@ class P(Prop):
                 raise ValueError("driver refused the request")
         blocks = [[self.parse_block(b) for b in r.split(" ")] for r in replies]
         if case["kind"] == "carry":
-            out = {"pre": None, "apre": None, "steps": None, "asteps": None}
+            out = {"pre": None, "apre": None, "steps": None, "asteps": None, "post": None, "apost": None}
             k = 0
             if case["pre"]:
                 out["pre"], out["apre"] = blocks[0], blocks[1]
                 k = 2
-            if len(blocks) > k:
-                out["steps"], out["asteps"] = blocks[k], blocks[k + 1]
+            # which of the two later phases were requested is decided as in requests(), from the implementation's output
+            res = self.cached_impl(case)
+            for which, start, key in (("ops", "first", "steps"), ("post", "src_after", "post")):
+                f = res.get(start)
+                if f is not None and case.get(which) and f["X"] and self.carried_table(f) is not None and len(blocks) > k + 1:
+                    out[key], out["a" + key] = blocks[k], blocks[k + 1]
+                    k += 2
             return out
         if not case["ops"]:
             return {"steps": [], "asteps": []}
@@ -1670,9 +1740,13 @@ class P(Prop):
                     return d
                 if any(st["out"] == "unsupported" for st in model_out["pre"]):
                     return None
-            if model_out["steps"] is None:
-                return None                # nothing carried that the model could start from (reported by the oracle if it is a defect)
-            return self.compare_ops(case["ops"], impl_out["steps"], model_out["steps"], model_out["asteps"], "derived track, ")
+            if model_out["steps"] is not None:     # else: nothing carried that the model could start from (reported by the oracle if it is a defect)
+                d = self.compare_ops(case["ops"], impl_out["steps"], model_out["steps"], model_out["asteps"], "derived track, ")
+                if d:
+                    return d
+            if model_out.get("post") is not None:
+                return self.compare_ops(case["post"], impl_out["post"], model_out["post"], model_out["apost"], "source track after the derivation, ")
+            return None
         return self.compare_ops(case["ops"], impl_out["steps"], model_out["steps"], model_out["asteps"])
 
     # ---------------------------------------------------------------- oracle (transfer)
@@ -1792,16 +1866,11 @@ class P(Prop):
         c = case["carry"]
         if "carry_err" in out:
             return "%s raised %s" % (c, out["carry_err"])
-        src, first = out["src_before"], out["first"]
-        if c[0] == "copy":
-            lo, hi, m = 0, n, 0
-        elif c[0] == "extract":
-            lo, hi, m = c[1], c[2] + 1, 0
-        elif c[0] == "slice":
-            lo, hi, m = c[1], c[2], 0
-        else:
-            lo, hi, m = 0, n, c[1]
-        dt = Tab(hi - lo + m)
+        src, first = out["src_pre"], out["first"]
+        same = c[0] in self.SAME_OBJECT
+        sel = self.carry_selection(c, n)
+        m = c[1] if c[0] == "plus" else 0
+        dt = Tab(len(sel) + m)
         oth = out["other_before"]
         if m and (oth is None or oth["names"] != src["names"]):
             # the operands do not list the same features: the sum lists none, and then its observations must not carry any
@@ -1814,17 +1883,19 @@ class P(Prop):
         else:
             want_names = list(src["names"])
         for cn in "XYZT":
-            col = getattr(tab, cn)[lo:hi] + ((oth[cn] if oth else []) if m else [])
+            col = [getattr(tab, cn)[k] for k in sel] + ((oth[cn] if oth else []) if m else [])
             setattr(dt, cn, col)
         for nm in want_names:
             if m and not isinstance(oth["cols"].get(nm), list):
                 return "second operand of %s: reading its listed feature %r raises %s" % (c[:2], nm, oth["cols"].get(nm))
-            dt.cols[nm] = tab.cols[nm][lo:hi] + (oth["cols"][nm] if m else [])
-        where = "track derived by %s: " % (c[:3] if c[0] != "plus" else c[:2],)
-        if first["names"] != want_names:
+            dt.cols[nm] = [tab.cols[nm][k] for k in sel] + (oth["cols"][nm] if m else [])
+        where = "track derived by %s: " % (c[:2] if c[0] == "plus" else c,)
+        if sorted(first["names"]) != sorted(want_names):
             return where + "lists %s, the source lists %s" % (first["names"], want_names)
         if any(l != len(want_names) for l in first["rowlens"]):
             return where + "%d names listed but the observations carry %s values" % (len(want_names), first["rowlens"])
+        if len(first["rowlens"]) != dt.n:
+            return where + "%d observations, expected %d" % (len(first["rowlens"]), dt.n)
         for nm in want_names:
             if not close(first["cols"][nm], dt.cols[nm]):
                 return where + "feature %r reads %s, the source holds %s there" % (nm, first["cols"][nm], dt.cols[nm])
@@ -1839,16 +1910,28 @@ class P(Prop):
         msg = self.spec_final(dt, out, "derived track, ")
         if msg:
             return msg
+        if same:
+            return None                    # the derived track IS the source track (closed into a ring / one observation appended)
         # feature calls on the derived track are calls on THAT track: the tables of the tracks it was made from stay as they were
         # (coordinates of shared observations may move: that sharing is documented behaviour of slices)
         for label, b4, af in (("source", out["src_before"], out["src_after"]), ("second operand", out["other_before"], out["other_after"])):
             if b4 is None:
                 continue
+            if label == "source" and not self.same_obs(out["src_pre"], b4):
+                return "making the derived track by %s changed the source track: %s -> %s" % (c, out["src_pre"], b4)
             if af["names"] != b4["names"] or any(l != len(af["names"]) for l in af["rowlens"]):
                 return "after the calls on the derived track the %s track lists %s and its observations carry %s values (before: %s, %s)" % (
                     label, af["names"], af["rowlens"], b4["names"], b4["rowlens"])
-            if c[0] == "copy" and not self.same_obs(b4, af):
-                return "after the calls on the copy the %s track changed: %s -> %s" % (label, b4, af)
+            if c[0] in self.INDEPENDENT and not self.same_obs(b4, af):
+                return "after the calls on the track made by %s (its observations are copies) the %s track changed: %s -> %s" % (c[0], label, b4, af)
+        if case.get("post") and "post" in out:
+            # the source is used again: its own table evolves as if the derived track did not exist, and the derived track does not move
+            msg = self.spec_ops(tab, case["post"], out["post"], "source track after %s, " % c[0])
+            if msg:
+                return msg
+            if not self.same_obs(out["derived_before_post"], out["derived_after_post"]):
+                return "after the calls on the source track the track made from it by %s (its observations are copies) changed: %s -> %s" % (
+                    c[0], out["derived_before_post"], out["derived_after_post"])
         return None
 
     def classify(self, case, impl_out, msg):
@@ -1865,8 +1948,12 @@ class P(Prop):
     # ---------------------------------------------------------------- shrinking / search
     def shrink(self, case):
         kind = "rand" if case["kind"] == "exh" else case["kind"]
-        for key in (("ops", "pre") if kind == "carry" else ("ops",)):
-            ops = case[key]
+        if case.get("post"):
+            yield {k: v for k, v in case.items() if k != "post"}
+        for key in (("ops", "pre", "post") if kind == "carry" else ("ops",)):
+            ops = case.get(key)
+            if ops is None:
+                continue
             lo = 0 if (kind == "carry") else 1
             for k in range(len(ops) - 1, lo - 1, -1):
                 yield dict(case, kind=kind, **{key: ops[:k]})
